@@ -22,6 +22,8 @@ bool IsFreed(const void *p);                       // inside a freed (quarantine
 std::string LocName(const void *p);                // registered / tracked name, or hex
 int LiveTracked(const char *cls);                  // number of live tracked blocks of a class
 void SetNoBranch(bool on);                         // steps taken while on are not branching points of the DFS
+bool OthersQuiet();                                     // all other runnable threads finished or blocked
+void WaitOthersQuiet();                                 // yield to the others until they are
 void BlockUntil(const std::function<bool()> &pred);  // harness-level wait (barrier, hand-over)
 extern void (*g_exit_op_hook)(const void *loc, int op);  // called after every atomic operation of a thread-exit destructor
 
